@@ -71,7 +71,7 @@ Theorem C15_compositional_field : forall E m call dflt o d fs,
                     | None => Err XRaw
                     | Some x => if eff_omit_none call dflt d && is_none x && is_opt (f_ty f) then Ok []
                                 else fmap (fun y => [(key_of call dflt d f, y)]) (pack E m call dflt x (f_ty f))
-                    end) (c_fields d)).
+                    end) (pack_order d)).
 Proof. exact comp_field. Qed.
 Print Assumptions C15_compositional_field.
 
@@ -201,10 +201,10 @@ Print Assumptions C15_union_order_observable.
 (* --- non-vacuity: the hypotheses of the agreement theorem are met by a non-trivial instance
    (inheritance, alias, Optional, list, a union of two distinguishable dataclasses) ---------- *)
 Definition E_ex : env :=
-  [mkC "A" None [mkF "x" (Some "a_x") TInt] (Some true) None true;
-   mkC "B" (Some "A") [mkF "x" (Some "a_x") TInt; mkF "y" None (TOpt TDate)] None None true;
-   mkC "C" None [mkF "z" None TStr] None None true;
-   mkC "O" None [mkF "u" None (TUnion [TData "B"; TData "C"; TInt]); mkF "l" None (TList (TData "A"))] None None true].
+  [mkC "A" None [mkF "x" (Some "a_x") TInt] (Some true) None false false false true;
+   mkC "B" (Some "A") [mkF "x" (Some "a_x") TInt; mkF "y" None (TOpt TDate)] None None false false false true;
+   mkC "C" None [mkF "z" None TStr] None None false false false true;
+   mkC "O" None [mkF "u" None (TUnion [TData "B"; TData "C"; TInt]); mkF "l" None (TList (TData "A"))] None None false false false true].
 Definition v_ex : val :=
   VObj "O" [("u", VObj "C" [("z", VStr "s")]);
             ("l", VList [VObj "A" [("x", VInt 1)]; VObj "A" [("x", VInt 2)]])].
@@ -218,8 +218,8 @@ Proof. repeat split; reflexivity. Qed.
 
 (* omit_none: Config on one class, the dialect on the others; a None Optional field is dropped where it is effective *)
 Definition E_om : env :=
-  [mkC "A" None [mkF "x" None TInt; mkF "y" None (TOpt TDate)] None (Some false) true;
-   mkC "B" None [mkF "a" None (TData "A"); mkF "z" (Some "a_z") (TOpt TInt)] None None true].
+  [mkC "A" None [mkF "x" None TInt; mkF "y" None (TOpt TDate)] None (Some false) false false false true;
+   mkC "B" None [mkF "a" None (TData "A"); mkF "z" (Some "a_z") (TOpt TInt)] None None false false false true].
 Example C15_agree_o_nonvacuous :
   let o := mkO (Some true) (Some true) in
   let v := VObj "B" [("a", VObj "A" [("x", VInt 1); ("y", VNone)]); ("z", VNone)] in
@@ -234,7 +234,7 @@ Proof. repeat split; reflexivity. Qed.
 
 (* the frame theorem's hypothesis is met by a real creation (a subclass that compiles a method onto "C") *)
 Example C15_frame_nonvacuous :
-  let X := add_class E_ex (mkC "S" (Some "O") [mkF "g" None (TData "C")] None None true) ["C"] in
+  let X := add_class E_ex (mkC "S" (Some "O") [mkF "g" None (TData "C")] None None false false false true) ["C"] in
   extends E_ex X /\ find_cls X "S" <> None /\
   run_pack X Mixin None (TData "O") v_ex = run_pack E_ex Mixin None (TData "O") v_ex.
 Proof. split; [apply extends_add|split; [discriminate|reflexivity]]. Qed.
